@@ -221,17 +221,17 @@ Definition api_type (k : bytes) (now : Z) (d : db) : bytes * db :=
   end.
 
 (* Scan(cursor, match, count, typ) -> (next cursor, keys).  Every visited entry past the
-   cursor is touched (rLockKey). *)
+   cursor is touched (rLockKey).  The loop reports whether it walked the index to its end. *)
 Fixpoint scan_loop (es : list (bytes * meta)) (iter cursor count keylen : Z) (pat : bytes)
-         (typ now : Z) (d : db) : Z * list bytes * db :=
+         (typ now : Z) (d : db) : Z * bool * list bytes * db :=
   match es with
-  | [] => (iter, [], d)
+  | [] => (iter, true, [], d)
   | (k, _) :: r =>
       let iter := iter + 1 in
       let cursor := cursor - 1 in
       if cursor >? 0 then scan_loop r iter cursor count keylen pat typ now d
-      else if iter >? keylen then (0, [], d)
-      else if count =? 0 then (iter, [], d)
+      else if iter >? keylen then (0, true, [], d)
+      else if count =? 0 then (iter, false, [], d)
       else
         let '(om, d1) := touch k d in
         let hit := match om with
@@ -239,13 +239,14 @@ Fixpoint scan_loop (es : list (bytes * meta)) (iter cursor count keylen : Z) (pa
                                && ((typ =? 0) || (m_vtype m =? typ))
                    | None => false
                    end in
-        let '(it, ks, d2) := scan_loop r iter cursor (count - 1) keylen pat typ now d1 in
-        (it, (if hit then k :: ks else ks), d2)
+        let '(it, fin, ks, d2) := scan_loop r iter cursor (count - 1) keylen pat typ now d1 in
+        (it, fin, (if hit then k :: ks else ks), d2)
   end.
 Definition api_scan (cursor : Z) (pat : bytes) (count typ now : Z) (d : db) : Z * list bytes * db :=
   let keylen := Z.of_nat (length (idx d)) in
-  if (keylen =? 0) || (cursor >=? keylen) then (0, [], d)
-  else scan_loop (idx d) 0 cursor count keylen pat typ now d.
+  if (keylen =? 0) || (cursor >? keylen) then (0, [], d)
+  else let '(it, fin, ks, d') := scan_loop (idx d) 0 cursor count keylen pat typ now d in
+       ((if fin then 0 else it), ks, d').
 
 Definition live_keys (now : Z) (d : db) : list bytes :=
   map fst (filter (fun e => negb (expired (snd e) now d)) (idx d)).
